@@ -26,6 +26,9 @@ type ServiceContext struct {
 	RemoteAddr net.Addr
 	Handler    Handler
 	service    *Service
+	// invokeHandler is the invoke handler chain as it was when the request arrived (see
+	// ClientContext.ioHandler)
+	invokeHandler NextInvokeHandler
 }
 
 // NewServiceContext returns a core.ServiceContext.
@@ -50,6 +53,7 @@ func (c *ServiceContext) Clone() Context {
 		c.RemoteAddr,
 		c.Handler,
 		c.service,
+		c.invokeHandler,
 	}
 }
 
